@@ -221,29 +221,28 @@ def cidrSel (parsePrefix : String → Option Prefix) (s : String) : Option CidrS
   else if s = "any" then some .any
   else (parsePrefix s).map .pfx
 
+/-- a protocol number with the result of `parsePort`. -/
+def withProto (proto : Nat) (x : Except PortErr (Int × Int)) : Except LoadErr (Nat × Int × Int) :=
+  match x with
+  | .ok (a, b) => .ok (proto, a, b)
+  | .error e => .error (.port e)
+
+/-- the `switch r.Proto` of the loop: protocol number and `parsePort` of `port` (or `code`). -/
+def protoPort (r : CRule) : Except LoadErr (Nat × Int × Int) :=
+  let sPort := if r.code ≠ "" then r.code else r.port
+  if r.proto = "any" then withProto Gen.firewall_ProtoAny (parsePort sPort)
+  else if r.proto = "tcp" then withProto Gen.firewall_ProtoTCP (parsePort sPort)
+  else if r.proto = "udp" then withProto Gen.firewall_ProtoUDP (parsePort sPort)
+  else if r.proto = "icmp" then .ok (Gen.firewall_ProtoICMP, Gen.firewall_PortAny, Gen.firewall_PortAny)
+  else .error .proto
+
 /-- the body of the loop for one converted rule: every guard in source order, then the `AddRule` arguments. -/
 def ruleOfConfig (parsePrefix : String → Option Prefix) (inbound : Bool) (r : CRule) : Except LoadErr Rule :=
   if r.code ≠ "" ∧ r.port ≠ "" then .error .portAndCode
   else if r.host = "" ∧ r.groups.length = 0 ∧ r.cidr = "" ∧ r.localCidr = "" ∧ r.caName = "" ∧ r.caSha = "" then
     .error .noSelector
   else
-    let sPort := if r.code ≠ "" then r.code else r.port
-    let pp : Except LoadErr (Nat × Int × Int) :=
-      if r.proto = "any" then
-        match parsePort sPort with
-        | .ok (a, b) => .ok (Gen.firewall_ProtoAny, a, b)
-        | .error e => .error (.port e)
-      else if r.proto = "tcp" then
-        match parsePort sPort with
-        | .ok (a, b) => .ok (Gen.firewall_ProtoTCP, a, b)
-        | .error e => .error (.port e)
-      else if r.proto = "udp" then
-        match parsePort sPort with
-        | .ok (a, b) => .ok (Gen.firewall_ProtoUDP, a, b)
-        | .error e => .error (.port e)
-      else if r.proto = "icmp" then .ok (Gen.firewall_ProtoICMP, Gen.firewall_PortAny, Gen.firewall_PortAny)
-      else .error .proto
-    match pp with
+    match protoPort r with
     | .error e => .error e
     | .ok (proto, a, b) =>
       match cidrSel parsePrefix r.cidr with
